@@ -343,6 +343,10 @@ def run_shape(prog, shape, tier, seed, res):
             inp = {'text': model_bytes(model, es).decode('latin-1')}
             if kind == 'pipeline':
                 inp['pipeline'] = [shape[1], shape[2]]
+            if kind == 'sts' and getattr(ctx, 'x_sts', None) is not None:
+                dt_, date8_ = ctx.x_sts
+                inp['sts_secs'] = model.eval(dt_.secs, model_completion=True).as_signed_long()
+                inp['cred_date'] = model_bytes(model, date8_).decode('latin-1')
             res.findings.append(Finding(what, inp, None, None, repr(shape)))
 
     def on_path(pr):
@@ -395,6 +399,7 @@ def run_shape(prog, shape, tier, seed, res):
             return
         if v[0] == 'sts':
             _, text, dt, date8, sts, pv, civ = v
+            ctx.x_sts = (dt, date8)
             res.witnesses.add('sts')
             if text is None:
                 y, mo, d, h, mi, s = civ
@@ -656,6 +661,24 @@ def replay_finding(rp, f):
         ts_native = au['ok'].get('timestamp')
         bad = len(sts) < 2 or sts[1] != want or (ts_native is not None and (ts_native.get('secs') != ref[1] or ts_native.get('nanos') != ref[2]))
         return bad, {'native_timestamp_line': sts[1] if len(sts) > 1 else None, 'expected': want, 'native_instant': ts_native, 'reference': ref}
+    if 'sts_secs' in f.inp:
+        # the authenticator directly: string-to-sign and scope-date check for this instant and credential date
+        secs, cd = f.inp['sts_secs'], f.inp['cred_date']
+        base = {'op': 'authenticator', 'canonical_request_sha256': 'ab' * 32, 'credential': 'AKID/%s/r/s/aws4_request' % cd, 'session_token': None,
+                'signature': '0' * 64, 'timestamp': {'secs': secs, 'nanos': 0}, 'region': 'r', 'service': 's',
+                'server_time': {'secs': secs, 'nanos': 0}, 'mismatch_secs': 900, 'mismatch_nanos': 0,
+                'provider': {'result': {'signing_key_hex': '00' * 32}}, 'log_level': 'off'}
+        r1 = rp.ask(dict(base, call='string_to_sign')).get('result', {})
+        r2 = rp.ask(dict(base, call='prevalidate')).get('result', {})
+        when = datetime.datetime(1970, 1, 1) + datetime.timedelta(seconds=secs)
+        want_ts = '%04d%02d%02dT%02d%02d%02dZ' % (when.year, when.month, when.day, when.hour, when.minute, when.second)
+        want_date = '%04d%02d%02d' % (when.year, when.month, when.day)
+        lines = bytes.fromhex(r1.get('ok', {}).get('hex', '')).decode('latin-1').split('\n') if 'ok' in r1 else []
+        bad_ts = len(lines) < 2 or lines[1] != want_ts
+        bad_scope = ('ok' in r2) != (cd == want_date)
+        return bad_ts or bad_scope, {'native_timestamp_line': lines[1] if len(lines) > 1 else r1, 'expected': want_ts,
+                                     'native_prevalidate': 'ok' if 'ok' in r2 else r2.get('err', {}).get('msg', r2), 'credential_date': cd,
+                                     'utc_date': want_date}
     if 'string-to-sign' in f.what or 'prevalidate' in f.what:
         return False, {'note': 'string-to-sign findings are replayed by the authenticator op', 'text': t}
     nat = native_parse(rp, t)
